@@ -34,7 +34,7 @@ def setup(ctx):
 
 def w_cross(ctx, rng, i):
     d = 2 + i % 2
-    kinds = tx.kinds(d) + tx.EXTRA_HOMOG + (tx.DEGENERATE_2D if d == 2 else [])
+    kinds = tx.kinds(d) + tx.EXTRA_HOMOG + (tx.DEGENERATE_2D if d == 2 else []) + ["NonSquareHomogeneous", "ChainWithIdentityMember"]
     kind = kinds[(i // 2) % len(kinds)]
     cls = gen.SHAPE_CLASSES[(i // (2 * len(kinds))) % 8]
     nlm = int(rng.integers(0, 4))
@@ -55,10 +55,21 @@ def w_cross(ctx, rng, i):
         g0.landmarks["inner"] = gen.shape(rng, gen.SHAPE_CLASSES[rng.integers(0, 8)], d=d, n=int(rng.integers(3, 6)), scale=0.55 * tx.BOX, centred=True)
         s.landmarks["g0"] = g0
         ctx.bump("cases_with_nested_landmarks")
+    has_empty = False
+    if rng.random() < 0.15 and kind != "WithDims":
+        has_empty = True
+        # a landmark group that has no points (yet): it is moved like every other group (its array takes the output dimensionality);
+        # driven un-batched and not through WithDims (both refuse a zero-point array on the unchanged tree: outside the quantifier)
+        import menpo.shape as ms
+        s.landmarks["empty"] = ms.PointCloud(np.zeros((0, d)))
+        nlm += 1
+        ctx.bump("cases_with_an_empty_landmark_group")
     if rng.random() < 0.3:
         s.points = gen.hostile_array(rng, s.points)
     held = [(k, v) for k, v in s.landmarks.items()] if nlm else []
     bs = [None, None, 1, 2, 3, 50][rng.integers(0, 6)]
+    if has_empty:
+        bs = None
     history = int(rng.integers(0, 4))
     if history == 3:
         # the transform's parameters were replaced after it was built (parameter vector, new target): only the new ones count
